@@ -1802,11 +1802,26 @@ impl TypeLayout {
 
         match op {
             Op::Is => return Some(TypeLayout::Native(NativeType::Bool)),
-            Op::AddAssign => return lhs.get_output_type(other, &Op::Add, flags),
-            Op::SubAssign => return lhs.get_output_type(other, &Op::Subtract, flags),
-            Op::MulAssign => return lhs.get_output_type(other, &Op::Multiply, flags),
-            Op::DivAssign => return lhs.get_output_type(other, &Op::Divide, flags),
-            Op::ModAssign => return lhs.get_output_type(other, &Op::Modulo, flags),
+            Op::AddAssign | Op::SubAssign | Op::MulAssign | Op::DivAssign | Op::ModAssign => {
+                let plain_op = match op {
+                    Op::AddAssign => Op::Add,
+                    Op::SubAssign => Op::Subtract,
+                    Op::MulAssign => Op::Multiply,
+                    Op::DivAssign => Op::Divide,
+                    _ => Op::Modulo,
+                };
+
+                // the result is stored back into the left operand, so it must keep that operand's kind:
+                // `x += 1.5` on an `int` would otherwise leave a float in a variable whose type stays `int`.
+                return lhs
+                    .get_output_type(other, &plain_op, flags)
+                    .filter(|output| match (lhs.get_type_recursively(), output) {
+                        (Native(lhs_kind), Native(output_kind)) => {
+                            std::mem::discriminant(lhs_kind) == std::mem::discriminant(output_kind)
+                        }
+                        _ => true,
+                    });
+            }
             _ => (),
         }
 
